@@ -63,6 +63,9 @@ func runCase(c *Case, next func(r *run) *Step) *outcome {
 	if c.Prim == "outer" {
 		return runOuter(c, next)
 	}
+	if c.Prim == "fifomap" && (c.Family == "first-lock-gated" || c.Family == "first-lock-barrier") {
+		return runFirstLock(c)
+	}
 	r := newRun(c)
 	header := r.header()
 	lines := r.execute(next)
@@ -258,7 +261,7 @@ func main() {
 		if tf := os.Getenv("C13_TRACE"); tf != "" {
 			os.WriteFile(tf, []byte(strings.Join(o.lines, "\n")+"\n"), 0o644)
 		}
-		if drv != nil {
+		if drv != nil && len(o.lines) > 0 {
 			rej, err := askModel(drv, o.lines)
 			if err != nil {
 				res.Note("model driver failed: " + err.Error())
